@@ -1,6 +1,7 @@
 """C11 - a restarted master reloads exactly the placement that was published."""
 
 from treadmill import zknamespace as z
+from treadmill import zkutils
 
 from pbt import gen, mastersim
 from pbt.props import _e2
@@ -61,11 +62,43 @@ def execute(case, stats):
         servers_seen = set()
         special = False
         compared = 0
+        # "still offering the capacity, partition and traits of what is
+        # recorded on it": judged from the server's current ZooKeeper record
+        # (a node may have re-registered with other capacity without the old
+        # master ever noticing: a presence flip it saw as no change)
+        offering = {}
+        sim.refresh_app_decl()
+        by_server = {}
+        for (server, inst) in stored:
+            by_server.setdefault(server, []).append(inst)
+        for server, insts in by_server.items():
+            record = zkutils.get_default(sim.admin, z.path.server(server))
+            okay = bool(record)
+            if okay:
+                cap = mastersim.ref_vector(record)
+                label = record.get('partition') or '_default'
+                traits = sim.trait_mask(record.get('traits', []))
+                total = [0, 0, 0]
+                for inst in insts:
+                    decl = sim.decl_apps.get(inst)
+                    if decl is None:
+                        okay = False
+                        break
+                    total = [t + d for t, d in zip(total, decl['demand'])]
+                    if decl['label'] != label or \
+                            (decl['traits'] & traits) != decl['traits']:
+                        okay = False
+                if any(t > c for t, c in zip(total, cap)):
+                    okay = False
+            offering[server] = okay
         for (server, inst), (data, ctime) in sorted(stored.items()):
             pnode = sim.tree.nodes.get(z.path.server_presence(server))
             healthy = pnode is not None and pnode.ctime <= ctime
             if not healthy:
                 stats.count('entries_unhealthy_server')
+                continue
+            if not offering.get(server):
+                stats.count('entries_server_no_longer_offering')
                 continue
             if not clean:
                 continue
